@@ -106,6 +106,22 @@ pub fn gen_number_phrase(rng: &mut Rng, p: &Pool, out: &mut Vec<&'static str>) {
             return;
         }
     }
+    if rng.chance(1, 14) {
+        // a decimal separator word of ANOTHER language between two numbers
+        let other = &crate::pools::POOLS[(lang_index(p) + 1 + rng.below(6)) % 7];
+        out.push(if rng.chance(1, 2) { rng.word(p.units) } else { rng.word(p.tens) });
+        out.push(rng.word(other.decsep));
+        out.push(rng.word(p.units));
+        return;
+    }
+    let pairs = crate::vocab::link_pairs(lang_index(p));
+    if !pairs.is_empty() && rng.chance(1, 14) {
+        // the second word of a two-word vocabulary entry between two small numbers
+        out.push(rng.word(p.units));
+        out.push(pairs[rng.below(pairs.len())].1);
+        out.push(rng.word(p.units));
+        return;
+    }
     match rng.below(8) {
         0 => {
             // run of zeros then a small number
